@@ -305,7 +305,16 @@ def summary(fn, norm, calls_pred=None, ctx=None, cut=False):
         cj = at.conjuncts()
         # `!(lo..=hi).contains(&x) => fail` is the pair of refusals x < lo => fail, x > hi => fail
         conds = cj if (len(cj) == 2 and at.false_fail and not at.true_fail) else [at.cond()]
-        for c in conds:
+        # `(a, b) == (c, d) ? T : F` is the short-circuit chain a == c ? (b == d ? T : F) : F
+        inner_true = {}
+        c0 = conds[0]
+        if len(conds) == 1 and c0 and c0[0] == "Eq":
+            from .prov import strip as _st
+            ta, tb = _st(c0[1]), _st(c0[2])
+            if ta[0] == "tuple" and tb[0] == "tuple" and len(ta[1]) == len(tb[1]) >= 2:
+                conds = [("Eq", x, y) for x, y in zip(ta[1], tb[1])]
+                inner_true = {i: "cont" for i in range(len(conds) - 1)}
+        for ci, c in enumerate(conds):
             if c is None:
                 base = norm.s(at.term)
             else:
@@ -325,6 +334,7 @@ def summary(fn, norm, calls_pred=None, ctx=None, cut=False):
                     return "ret(%s)" % ",".join(str(r[1]) for r in sorted(ret))
                 return "cont"
             st, sf = side(at.true_fail, at.true_codes, at.true_ret), side(at.false_fail, at.false_codes, at.false_ret)
+            st = inner_true.get(ci, st)
             if c is not None:
                 # one canonical member of each complement pair: `a != b ? X : Y` is `a == b ? Y : X`; `a < b` is `!(b <= a)`
                 if op == "Ne":
